@@ -549,6 +549,52 @@ def strategy():
     return st.binary(min_size=500, max_size=500).map(build)
 
 
+# ---- blocks of the other template: exposed, and exported to import="*", at whatever depth they are written -------------
+BLOCK_LIB = ('<%def name="plain()">PLAIN</%def>'
+             '<%block name="outer">OUTER[<%block name="inner">INNER(<%block name="innermost">DEEP:${cv}</%block>)</%block>]</%block>')
+
+
+def check_block_exports(ev, fails):
+    """expectations by construction (each block called on its own renders its own content, nested blocks included)"""
+    from mako.lookup import TemplateLookup
+
+    exp = {"plain": "PLAIN", "outer": "OUTER[INNER(DEEP:%s)]", "inner": "INNER(DEEP:%s)", "innermost": "DEEP:%s"}
+    names = ["plain", "outer", "inner", "innermost"]
+    forms = {
+        "qualified": ('<%%namespace name="lib" file="%s"/>', "lib."),
+        "import-list": ('<%%namespace file="%s" import="plain, outer, inner, innermost"/>', ""),
+        "import-star": ('<%%namespace file="%s" import="*"/>', ""),
+        "named-import-star": ('<%%namespace name="lib" file="%s" import="*"/>', ""),
+    }
+    k = next(_cnt)
+    for form, (tag, prefix) in sorted(forms.items()):
+        for site in ("body", "def"):
+            for shadow in (False, True):  # context variables of the same names: the import wins
+                for strict in (False, True):
+                    for rel in (False, True):
+                        lk = TemplateLookup(strict_undefined=strict)
+                        lk.put_string("/c07b%d/lib/parts.html" % k, BLOCK_LIB)
+                        file_ = "lib/parts.html" if rel else "/c07b%d/lib/parts.html" % k  # (put_string lookups do not resolve "..")
+                        calls = "|".join("${%s%s()}" % (prefix, n) for n in names)
+                        src = tag % file_ + ('<%%def name="show()">%s</%%def>${show()}' % calls if site == "def" else calls)
+                        lk.put_string("/c07b%d/page.html" % k, src)
+                        ctx = {"cv": "cv1"}
+                        if shadow:
+                            ctx.update({n: (lambda n=n: "CTX-" + n) for n in names})
+                        case = {"part": "block-exports", "form": form, "site": site, "shadow": shadow, "strict": strict, "rel": rel}
+                        want = "|".join(exp[n] % "cv1" if "%s" in exp[n] else exp[n] for n in names)
+                        try:
+                            got = lk.get_template("/c07b%d/page.html" % k).render_unicode(**ctx)
+                        except Exception as e:  # noqa: BLE001 - the type is the observation
+                            got = "%s: %s" % (type(e).__name__, str(e)[:120])
+                        if got != want:
+                            f = Failure(case, "blocks of a namespace (%s, called from the %s, context variables of the same names: %s, strict_undefined=%s): "
+                                        "expected %r, got %r\n--- lib ---\n%s\n--- page ---\n%s" % (form, site, shadow, strict, want, got, BLOCK_LIB, src),
+                                        "block-exports:" + form)
+                            fails.setdefault(f.key, f)
+                        ev.case(key=["block-exports", form, site, shadow, strict, rel], nontrivial=True, labels=("block-exports:" + form,))
+
+
 def shard(task):
     seed, n = task
     core.setup_repo()
@@ -558,12 +604,21 @@ def shard(task):
 
 
 def run(ctx):
+    fails = {}
+    core.setup_repo()
+    check_block_exports(ctx.ev, fails)
+    for f in fails.values():
+        ctx.fail(f)
     n = ctx.pick(600, 10000)
     ctx.pmap(shard, [(ctx.shard_seed(i), n) for i in range(16)])
 
 
 def replay(case):
     core.setup_repo()
+    if case.get("part") == "block-exports":
+        fails = {}
+        check_block_exports(core.Evidence(), fails)
+        return next((f for f in fails.values() if f.case == case), None)
     try:
         check_case(case)
     except Failure as f:
